@@ -141,7 +141,8 @@ def gen_workspace(rng, npatches=None, fail_prob=0.4, features=("modify", "create
         nent = rng.randint(1, 3)
         new_tree = dict(tree)
         for ei in range(nent):
-            kinds = [k for k in ("modify", "modify", "modify", "create", "delete", "rename", "mode") if k in features or k == "modify"]
+            kinds = [k for k in ("modify", "modify", "modify", "modify", "create", "create", "delete", "delete", "rename", "rename", "mode", "mode", "rename_odd")
+                     if k in features or k == "modify" or (k == "rename_odd" and "rename" in features)]
             kind = rng.choice(kinds)
             existing = [n for n in new_tree]
             style = rng.choice(["plain", "plain", "ts", "git", "garbage"])
@@ -154,8 +155,14 @@ def gen_workspace(rng, npatches=None, fail_prob=0.4, features=("modify", "create
                 if bl == a:
                     bl = a + [b"appended\n"]
                 on, nn = prefix_a + n, prefix_b + n
-                if rng.random() < 0.1:
+                r = rng.random()
+                gone = [x for x in init if x not in new_tree]
+                if r < 0.1:
                     on = prefix_a + n + b".orig"        # differing names: the new name exists
+                elif r < 0.3 and gone:
+                    # differing names, the old one was on disk at the start and was deleted or renamed away
+                    # earlier in the series (in memory within one invocation, on disk across invocations)
+                    on = prefix_a + rng.choice(gone)
                 if reverse:
                     entry = file_patch_text(rng, on, nn, bl, a, ctx, style)
                 else:
@@ -204,6 +211,30 @@ def gen_workspace(rng, npatches=None, fail_prob=0.4, features=("modify", "create
                 entry = file_patch_text(rng, prefix_a + n, prefix_b + n2, a, bl, ctx, "git", extra)
                 del new_tree[n]
                 new_tree[n2] = (bl, m)
+            elif kind == "rename_odd" and existing and not reverse:
+                # renames the ordinary generator never makes: onto an existing (empty or not) file, of a
+                # missing source, onto itself
+                n = rng.choice(existing)
+                a, m = new_tree[n]
+                which = rng.choice(["onto", "missing", "self"])
+                if which == "onto":
+                    others = [x for x in existing if x != n]
+                    if not others:
+                        continue
+                    n2 = rng.choice(others)
+                    extra = b"similarity index 100%\nrename from " + n + b"\nrename to " + n2 + b"\n"
+                    entry = b"diff --git " + prefix_a + n + b" " + prefix_b + n2 + b"\n" + extra
+                    if not new_tree[n2][0]:
+                        del new_tree[n]
+                        new_tree[n2] = (a, m)
+                elif which == "missing":
+                    extra = b"similarity index 100%\nrename from nosuch\nrename to " + n + b".moved\n"
+                    entry = b"diff --git " + prefix_a + b"nosuch " + prefix_b + n + b".moved\n" + extra
+                else:
+                    extra = b"similarity index 100%\nrename from " + n + b"\nrename to " + n + b"\n"
+                    bl = mutate_lines(rng, a)
+                    entry = file_patch_text(rng, prefix_a + n, prefix_b + n, a, bl, ctx, "git", extra)
+                    new_tree[n] = (bl, m)
             elif kind == "mode" and existing and not reverse:
                 n = rng.choice(existing)
                 a, m = new_tree[n]
@@ -303,7 +334,7 @@ def model_line(w, cfg):
     dl = " ".join(hx(d) for d in sorted(dirs))
     pl = " ".join("%s %s" % (hx(n), hx(d)) for n, d in sorted(w["patches"].items()))
     return "push %d %s %d %d %d %s %d %s %d %s %d %s" % (
-        cfg["fuzz"], cfg["backup"], cfg["count"], int(cfg["dry"]), DEFAULT_MODE, gs,
+        cfg["fuzz"], cfg["backup"], cfg["count"], int(cfg["dry"]) + (2 if cfg.get("threads", 1) > 1 else 0), DEFAULT_MODE, gs,
         len(files), fl, len(dirs), dl, len(w["patches"]), pl)
 
 
